@@ -24,7 +24,7 @@ From CL Require Import Base.Sx Base.Res Base.Str Model.AddRemove Model.Channels
 From CL Require Proofs.C02BlocksDtd Proofs.DtdShape Proofs.DtdReparse Proofs.DtdView.
 From CL Require Proofs.C02BlocksIni Proofs.IniShape Proofs.IniReparse Proofs.IniView.
 From CL Require Proofs.C02BlocksInc Proofs.IncShape Proofs.IncReparse Proofs.MergeHeadInstr.
-From CL Require Proofs.C02Po Proofs.C02BlocksPo Proofs.PoReparse.
+From CL Require Proofs.C02Po Proofs.C02BlocksPo Proofs.PoReparse Proofs.IncView.
 From Coq Require Import Lia.
 Import ListNotations.
 Local Open Scope nat_scope.
@@ -601,3 +601,11 @@ Proof.
   eexists. eexists. split; [vm_compute; reflexivity|]. split; [vm_compute; reflexivity|].
   split; vm_compute; reflexivity.
 Qed.
+
+(* [ncentries_of bs] is the view of what DefinesParser yields for the text of a legal block
+   list whose empty lines are inside filter regions (no Junk) *)
+Theorem C15_parse_view_inc : forall bs, Forall C02BlocksInc.legal_nblock bs -> C02BlocksInc.nadjacent_ok bs ->
+  C02BlocksInc.nblanks_ok false true bs = true ->
+  exists es, walk_defines (C02BlocksInc.nfile_text bs) = Ok es /\
+             map (IncView.nview (C02BlocksInc.nfile_text bs)) es = IncShape.ncentries_of bs.
+Proof. exact IncView.ncentries_view. Qed.
